@@ -279,6 +279,10 @@ func (s *XModel) GetWithTxStatus(bucket string, key []byte) (*kledger.VersionedD
 func (s *XModel) Select(bucket string, startKey []byte, endKey []byte) (kledger.XMIterator, error) {
 	rawStartKey := makeRawKey(bucket, startKey)
 	rawEndKey := makeRawKey(bucket, endKey)
+	if endKey == nil {
+		// nil end: up to the end of the bucket (as MemXModel.Select, which replays the read set, does)
+		rawEndKey = append([]byte(bucket), BucketSeperator[0]+1)
+	}
 	iter := &XMIterator{
 		bucket: bucket,
 		iter:   s.extUtxoTable.NewIteratorWithRange(rawStartKey, rawEndKey),
